@@ -24,8 +24,8 @@ pub fn passes(tier: &str) -> Vec<Pass> {
     let nocomp = Cfg { lz4: false, ..d.clone() };
     let q = tier == "quick";
     let mut v = vec![
-        mk("wide/default", d.clone(), Alpha::wide(), "", if q { 3 } else { 4 }, if q { 2 } else { 3 }, if q { 6.0 } else { 240.0 }, Probe::Full),
-        mk("narrow/default", d.clone(), Alpha::narrow(false), "", if q { 5 } else { 7 }, if q { 4 } else { 5 }, if q { 8.0 } else { 200.0 }, Probe::Lite),
+        mk("wide/default", d.clone(), Alpha::wide(), "", if q { 3 } else { 4 }, if q { 2 } else { 3 }, if q { 6.0 } else { 150.0 }, Probe::Full),
+        mk("narrow/default", d.clone(), Alpha::narrow(false), "", if q { 5 } else { 7 }, if q { 4 } else { 5 }, if q { 8.0 } else { 150.0 }, Probe::Lite),
         mk("narrow/from-last-level", d.clone(), Alpha::narrow(false), "a_in_last_level", if q { 4 } else { 6 }, 3, if q { 5.0 } else { 120.0 }, Probe::Lite),
         mk("two-keys/tomb-over-value", d.clone(), Alpha::two_keys(), "tomb_over_value", if q { 4 } else { 6 }, 3, if q { 4.0 } else { 90.0 }, Probe::Full),
         mk("narrow-big/blob", blob.clone(), Alpha::narrow(true), "", if q { 4 } else { 6 }, 3, if q { 5.0 } else { 120.0 }, Probe::Lite),
@@ -33,11 +33,11 @@ pub fn passes(tier: &str) -> Vec<Pass> {
         mk("narrow/leveled-l0=2", l2.clone(), Alpha::narrow(false), "", if q { 4 } else { 7 }, 3, if q { 4.0 } else { 150.0 }, Probe::Lite),
     ];
     if !q {
-        v.push(mk("wide/l6_l0_mem", d.clone(), Alpha::wide(), "l6_l0_mem", 3, 2, 120.0, Probe::Full));
+        v.push(mk("wide/l6_l0_mem", d.clone(), Alpha::wide(), "l6_l0_mem", 3, 2, 80.0, Probe::Full));
         v.push(mk("narrow/tiny-memtable", tiny, Alpha::narrow(false), "", 6, 4, 90.0, Probe::Lite));
         v.push(mk("narrow/fifo", fifo, Alpha::narrow(false), "", 6, 4, 90.0, Probe::Lite));
         v.push(mk("narrow-big/no-journal-compression", nocomp, Alpha::narrow(true), "", 5, 4, 60.0, Probe::Lite));
-        v.push(mk("two-keys/leveled-l0=2", l2, Alpha::two_keys(), "", 6, 4, 120.0, Probe::Full));
+        v.push(mk("two-keys/leveled-l0=2", l2, Alpha::two_keys(), "", 6, 4, 80.0, Probe::Full));
         v.push(mk("wide/blob", blob, Alpha::wide(), "", 3, 2, 60.0, Probe::Full));
     }
     v
